@@ -1,0 +1,112 @@
+//go:build verif
+
+package p2p
+
+import (
+	"context"
+	"sync"
+	"time"
+
+	"github.com/libp2p/go-libp2p/core/peer"
+)
+
+// VerifPeerQueue exposes the session's unexported peerQueue to the verification harness.
+// Add-only: it calls newPeerQueue / push / waitPop / updateStats / decreaseScore / score and
+// reads the queue's fields; it changes no behaviour of the package.
+type VerifPeerQueue struct {
+	q *peerQueue
+
+	mu    sync.Mutex
+	stats map[string]*peerStat // every peerStat ever handed to the queue, by peer id
+}
+
+// VerifNewPeerQueue builds the queue exactly as newSession does: newPeerQueue over the given
+// stats (one per id, in this order; channel capacity = len(ids)).
+func VerifNewPeerQueue(ctx context.Context, ids []string, scores []float32) *VerifPeerQueue {
+	v := &VerifPeerQueue{stats: make(map[string]*peerStat, len(ids))}
+	stats := make([]*peerStat, len(ids))
+	for i, id := range ids {
+		stats[i] = &peerStat{peerID: peer.ID(id), peerScore: scores[i]}
+		v.stats[id] = stats[i]
+	}
+	v.q = newPeerQueue(ctx, stats)
+	return v
+}
+
+// Push pushes a NEW peerStat (id, score) with peerQueue.push. It blocks like push does.
+func (v *VerifPeerQueue) Push(id string, score float32) {
+	st := &peerStat{peerID: peer.ID(id), peerScore: score}
+	v.mu.Lock()
+	v.stats[id] = st
+	v.mu.Unlock()
+	v.q.push(st)
+}
+
+// PushBack pushes the peerStat last seen under this id (the pointer waitPop returned) back,
+// the way session.doRequest returns a peer to the queue. False when the id is unknown.
+func (v *VerifPeerQueue) PushBack(id string) bool {
+	v.mu.Lock()
+	st := v.stats[id]
+	v.mu.Unlock()
+	if st == nil {
+		return false
+	}
+	v.q.push(st)
+	return true
+}
+
+// WaitPop is peerQueue.waitPop; ok is false when it returned the empty peerStat (a context ended).
+func (v *VerifPeerQueue) WaitPop(ctx context.Context) (id string, score float32, ok bool) {
+	st := v.q.waitPop(ctx)
+	if st.peerID == "" {
+		return "", 0, false
+	}
+	return string(st.peerID), st.score(), true
+}
+
+// UpdateStats calls peerStat.updateStats on the stat known under id (inside or outside the heap:
+// peerStat pointers are shared) and returns the new score.
+func (v *VerifPeerQueue) UpdateStats(id string, amount int, d time.Duration) (float32, bool) {
+	v.mu.Lock()
+	st := v.stats[id]
+	v.mu.Unlock()
+	if st == nil {
+		return 0, false
+	}
+	st.updateStats(amount, d)
+	return st.score(), true
+}
+
+// DecreaseScore calls peerStat.decreaseScore on the stat known under id and returns the new score.
+func (v *VerifPeerQueue) DecreaseScore(id string) (float32, bool) {
+	v.mu.Lock()
+	st := v.stats[id]
+	v.mu.Unlock()
+	if st == nil {
+		return 0, false
+	}
+	st.decreaseScore()
+	return st.score(), true
+}
+
+// Len is the number of peers in the heap.
+func (v *VerifPeerQueue) Len() int {
+	v.q.statsLk.RLock()
+	defer v.q.statsLk.RUnlock()
+	return v.q.stats.Len()
+}
+
+// Tokens is the number of tokens waiting in the havePeer channel; Cap its capacity.
+func (v *VerifPeerQueue) Tokens() int { return len(v.q.havePeer) }
+func (v *VerifPeerQueue) Cap() int    { return cap(v.q.havePeer) }
+
+// Snapshot returns the heap's backing array, in array order.
+func (v *VerifPeerQueue) Snapshot() (ids []string, scores []float32) {
+	v.q.statsLk.RLock()
+	defer v.q.statsLk.RUnlock()
+	for _, st := range v.q.stats {
+		ids = append(ids, string(st.peerID))
+		scores = append(scores, st.score())
+	}
+	return ids, scores
+}
